@@ -58,7 +58,10 @@ def build():
     if REPO != "/repo":
         ct = os.path.join(h, "Cargo.toml")
         open(ct, "w").write(open(ct).read().replace("/repo/", REPO.rstrip("/") + "/"))
-    r = sh(["cargo", f"+{TC}", "build", "--offline"], cwd=h)
+    # build scripts are instrumented too and would drop default_*.profraw into their package directory (under /repo)
+    os.makedirs(os.path.join(COV, "build-prof"), exist_ok=True)
+    r = sh(["cargo", f"+{TC}", "build", "--offline"], cwd=h,
+           env=dict(os.environ, LLVM_PROFILE_FILE=os.path.join(COV, "build-prof", "b-%p-%m.profraw")))
     if r.returncode:
         sys.exit(r.stdout[-3000:])
     return os.path.join(h, "target", "debug", "hkverif")
